@@ -37,6 +37,12 @@ class NDCubeSlicingMixin(NDSlicingMixin):
         if item is None or (isinstance(item, tuple) and None in item):
             raise IndexError("None indices not supported")
 
+        # An Ellipsis next to one entry per axis stands for no axis at all (valid for numpy),
+        # but the WCS slicing machinery counts it as an entry too many.
+        if isinstance(item, tuple) and len(item) == len(self.shape) + 1:
+            n_ellipsis = sum(entry is Ellipsis for entry in item)
+            if n_ellipsis == 1:
+                item = tuple(entry for entry in item if entry is not Ellipsis)
         item = tuple(sanitize_slices(item, len(self.shape)))
         # Negative indices are relative to the array shape, which the WCS slicing
         # machinery does not know about, so convert them to their positive equivalents.
